@@ -20,8 +20,8 @@ off what is printed — not off an intermediate value of the encoder.
 * spanning heading rows (`spanningRow`), table-rendered footnote / source rows (`renderFoot`), column header rows
   (`renderHeader`): their `\cellx` vectors are `Widths.spanRow`, `Widths.footRow`, `Widths.headerRow` of the document's
   values, with the C08 consequences (`C08_spanning_row`, `C08_footnote_row`, `headerRowQ_inherited`);
-* FINDING `C08enc_finding_foot_widths`: a footnote rendered as table with a `col_rel_width` of two entries stops at
-  half the table width (`C08_footnote_row` has the one-entry hypothesis for this reason; rtflite does not enforce it).
+* former finding, repaired in rtflite: a footnote rendered as table with a `col_rel_width` of two entries stopped at
+  half the table width (first boundary); the cell now ends at the last boundary (`C08_footnote_row_any`).
 -/
 namespace Props.C08enc
 open Model.Encode Model.Broadcast Model.Layout Model.Emit Model.Widths Proofs.EncodeAttrs Proofs.Encode Proofs.Widths
@@ -203,34 +203,38 @@ theorem C08enc_heading_rendered {measure : Measure} {k : ColorCtx} {d : Doc} (R 
 /-! ## footnote / source rendered as table -/
 
 /-- a table-rendered footnote / source is one row of one cell whose `\cellx` vector is `Widths.footRow` of its own
-width vector; with a one-entry vector `[x]`, `x > 0` (the default is `[1.0]`) it is the right edge `twip col_width` -/
+width vector; with ANY non-empty vector of positive widths it is the right edge `twip col_width` (the cell ends at the
+LAST boundary of the vector — repo fix; it used to end at the first one, so `col_rel_width = [1, 1]` gave a footnote
+row ending at half the table width) -/
 theorem C08enc_foot_row {k : ColorCtx} {d : Doc} {f : Foot} {o : Option String} {es : List Elem}
     (h : renderFoot k d f o = .ok es) (ht : f.asTable = true) :
     ∃ w e cx, f.colRelWidth = some w ∧ es = [e] ∧ footRow w d.page.colWidth = .ok cx ∧ elemCellx e = [cx] ∧
-      (∀ x, w = [x] → 0 < x → cx = [Model.Encode.twip d.page.colWidth]) := by
+      (w ≠ [] → AllPos w → cx = [Model.Encode.twip d.page.colWidth]) := by
   obtain ⟨w, e, hw, rfl, hx, hlen⟩ := renderFoot_cellx h ht
-  have hf : footRow w d.page.colWidth = .ok (((colWidths w d.page.colWidth).take 1).map Model.Encode.twip) := by
+  have hf : footRow w d.page.colWidth =
+      .ok ((colWidths w d.page.colWidth).getLast?.toList.map Model.Encode.twip) := by
     unfold footRow footRowQ rowQ
-    rw [if_pos hlen]
-    rfl
+    cases hl : (colWidths w d.page.colWidth).getLast? with
+    | none =>
+      have : colWidths w d.page.colWidth = [] := by simpa using hl
+      rw [this] at hlen; simp at hlen
+    | some c => simp [toTwips, Model.Encode.twip]
   refine ⟨w, e, _, hw, rfl, hf, hx, ?_⟩
-  intro x hwx hpos
-  subst hwx
-  have := Props.C08.C08_footnote_row x d.page.colWidth hpos
+  intro hne hpos
+  have := Props.C08.C08_footnote_row_any w d.page.colWidth hne hpos
   rw [hf] at this
   exact Except.ok.inj this
 
-/-- FINDING.  The one-entry hypothesis cannot be dropped and rtflite does not enforce it: a footnote rendered as table
-with `col_rel_width = [1, 1]` (positive entries, inside C01's domain) is accepted and its row ends at `\cellx4500`
-while the data rows of the same table end at `\cellx9000` -/
-theorem C08enc_finding_foot_widths :
+/-- the former finding, repaired: a footnote rendered as table with `col_rel_width = [1, 1]` now ends at the table's
+right edge `\cellx9000` like the data rows (it ended at `\cellx4500`) -/
+example :
     let d : Doc := { Props.C01enc.exDoc [1, 2] with
       footnote := some { text := some "note".toList, asTable := true, colRelWidth := some [1, 1],
                          attrs := Props.C01enc.exTbl } }
     Model.EncodeDomain.inDomain d = true ∧
     (match encode Props.C01enc.exMeasure d with
      | .ok g => g.blocks.filterMap blockCellx
-     | .error _ => []) = [[4500, 9000], [3000, 9000], [3000, 9000], [4500]] := by
+     | .error _ => []) = [[4500, 9000], [3000, 9000], [3000, 9000], [9000]] := by
   decide +kernel
 
 /-! ## column header rows -/
